@@ -10,13 +10,14 @@ from .base import Result, V
 from . import simcommon as SC
 from . import simprop
 
-MODULES = ["TickitModel.Props.C06", "TickitModel.Props.C04", "TickitModel.Props.C06Run", "TickitModel.Props.C07"]
+MODULES = ["TickitModel.Props.C06", "TickitModel.Props.C04", "TickitModel.Props.C06Run", "TickitModel.Props.C07", "TickitModel.Props.FlatInt"]
 THEOREMS = ["addWakeup_lookup", "addWakeup_unique", "addWakeup_length", "firstWakeups_spec", "firstWakeups_none", "delWakeups_lookup",
             "delWakeups_unique", "served_then_later", "nestedDue_spec", "nestedDue_exact", "system_callback_is_min",
             "tick_time_provenance", "wake_not_before",
             "callback_exact", "callback_never_overtaken", "callback_first_update", "callback_served_one_tick", "time_strictly_increases",
             "flatRun_can_continue", "callback_eventually_served", "callback_eventually_observed", "callback_served_exists",
-            "wake_entry_was_requested", "no_invented_tick", "callback_kept_by_silent_update", "interrupt_keeps_earlier_callback", "interrupt_keeps_earlier_callback_exact"]
+            "wake_entry_was_requested", "no_invented_tick", "callback_kept_by_silent_update", "interrupt_keeps_earlier_callback", "interrupt_keeps_earlier_callback_exact",
+            "wakeup_exactI", "wakeups_served_one_tickI", "tick_provenanceI", "wake_entry_provenanceI", "pending_not_overtakenI"]
 ANCHORS = ["src/tickit/core/management/schedulers/base.py", "src/tickit/core/management/schedulers/master.py",
            "src/tickit/core/management/schedulers/nested.py", "src/tickit/core/components/system_component.py"]
 TECHNIQUE = "Lean 4 theorems (wakeup bookkeeping: one entry per component, first wakeups = minimum and exactly its holders, served entries removed and everything left is strictly later, nested due-selection exact, system callback = inner minimum, tick-time provenance) + differential run of add_wakeup/get_first_wakeups and whole-simulation tick sequences against the model"
